@@ -10,7 +10,8 @@ RULE = ('2..4 per-thread programs of operation templates (syscalls with lookups,
         'faults, launches; child tids, pids and string ids partitioned per program by construction) and a generated '
         'schedule (list of thread indexes, biased towards fine-grained alternation); records keep their own timestamps '
         '(a record may be duplicated within one tick), a thread may log a terminate record naming another thread, and in 40% of the cases all '
-        'threads draw their calls from one pool of 1..3 names (process-creating calls at raised weight). Oracle (metamorphic): the serial '
+        'threads draw their calls from one pool of 1..3 names (process-creating calls at raised weight); sub-check crowd: 1030 / 4100 (thorough: up '
+        'to 16500) other threads begin calls inside one thread\'s open() window. Oracle (metamorphic): the serial '
         'schedule and the interleaved schedule, each on a fresh parser, give for every thread the same list of '
         '(rendered text, identity of the events in the window) and the same final pids_names, threads_pids, tids_names '
         'and global_strings. Non-trivial: the schedule splits a data/string pair or a START..END window with an event '
@@ -118,7 +119,35 @@ def prop_interleave(ctx, case):
     ctx.note(None, nontrivial=split and inter != serial, classes=cls)
 
 
-PROPS = {'interleave': prop_interleave}
+def prop_crowd(ctx, case):
+    """thousands of threads: one thread's call (with a looked-up path) stays open while `n` other threads each begin
+    (and possibly finish) a call of their own; every thread's results are those of its own records"""
+    n, seed = case['n'], case['seed']
+    victim = 0x101
+    path = b'/crowd/' + b'p' * (20 + seed % 60)
+    own = [SC.ev(victim, 'BSC_open', 1, seed, 0)] + EV.lookup_events(victim, 77, path) + [SC.ev(victim, 'BSC_open', 2, seed, 1)]
+    others = []
+    for i in range(n):
+        tid = 0x100000 + i
+        others.append([SC.ev(tid, 'BSC_getpid' if i % 2 else 'BSC_read', 1, seed + i, 0)] + ([SC.ev(tid, 'BSC_getpid' if i % 2 else 'BSC_read', 2, seed + i, 1)] if i % 3 else []))
+    cut = 1 + case['cut'] % (len(own) - 1)
+    progs = [own] + others
+    serial = [(i, p) for i, pr in enumerate(progs) for p in range(len(pr))]
+    inter = [(0, p) for p in range(cut)] + [(i, 0) for i in range(1, n + 1)] + [(0, p) for p in range(cut, len(own))] + \
+            [(i, 1) for i in range(1, n + 1) if len(progs[i]) > 1]
+    r1, t1 = guard(run_schedule, progs, serial)
+    r2, t2 = guard(run_schedule, progs, inter)
+    for tid in sorted(set(r1) | set(r2)):
+        a, b = r1.get(tid, []), r2.get(tid, [])
+        if a != b:
+            raise Violation('per-thread-result:crowd', f'thread {tid:#x} with {n} other threads starting calls inside its open() window: alone {[x[0] for x in a][:3]}, '
+                                                       f'in the crowd {[x[0] for x in b][:3]}')
+    if not r1.get(victim) or t1 != t2:
+        raise Violation('per-thread-result:crowd', f'tables differ or the reference run produced nothing ({len(r1.get(victim, []))} traces)')
+    ctx.note(['crowd', n, cut, seed], nontrivial=True, classes=[f'crowd:{n}'])
+
+
+PROPS = {'interleave': prop_interleave, 'crowd': prop_crowd}
 
 
 def schedule():
@@ -141,3 +170,5 @@ def run(ctx):
     shared = pool.flatmap(lambda ns: st.fixed_dictionaries({'programs': SC.programs_strategy(2, 4, 6, names=ns), 'schedule': schedule(),
                                                             'dups': pairs, 'terminates': pairs, 'shared_names': st.just(True)}))
     ctx.run_given('interleave', shared, prop_interleave, ctx.n(600, 5000))
+    crowd = [{'n': n, 'seed': ctx.seed * 31 + k, 'cut': ctx.seed + k} for k, n in enumerate([1030, 4100] if ctx.quick else [300, 1030, 2050, 4100, 8200, 16500])]
+    ctx.run_enum('crowd', crowd, prop_crowd, exhaustive_label='one open() window with 1030 / 4100 (thorough: up to 16500) other threads starting calls inside it')
